@@ -263,6 +263,49 @@ def nb_of(nbs, v):
     return nbs[str(v)]
 
 
+def spec_neighbors(snap, v, d, u, f):
+    """what neighbors(v) answers by the LINK ORDER of the snapshot alone (the statement of C04, written out over the public
+    view: links of v in order, the far end by identity, direction / unknown-class / filter decided per link): the yardstick that
+    makes "the order induced by link order" a judgement on the implementation and not only on the model.  Filters are the
+    harness's standard ones (ids 0-4, functions of link id and far-end id)."""
+    def filt(l, o):
+        if f is None or f == 0:
+            return True
+        if f == 1:
+            return False
+        if f == 2:
+            return l % 2 == 0
+        if f == 3:
+            return o is not None and o % 2 == 0
+        return (l + o) % 2 == 0 if o is not None else l % 2 == 0
+    out = []
+    for l in snap["vlinks"][v]:
+        ends = snap["lverts"][l]
+        if len(ends) < 2:
+            return ["raise", "IndexError"]
+        a, b = ends[0], ends[1]
+        o = b if a == v else (a if b == v else None)
+        k = snap["kind"][l]
+        und, dr = k in ("KUnd", "KUndSub"), k in ("KDir", "KDirSub")
+        if d == "AnyDir":
+            take = True
+        else:
+            mine, theirs = (a, b) if d == "Fwd" else (b, a)
+            if und or (dr and mine == v):
+                take = True
+            elif dr and theirs == v:
+                take = False
+            elif u == "UNon":
+                take = False
+            elif u == "UNb":
+                take = True
+            else:
+                return ["raise", "NotImplementedError"]
+        if take and filt(l, o):
+            out.append(o)
+    return ["list", out]
+
+
 def reach_set(snap, nbs, uni, start):
     """vertices reachable from start through in-universe neighbours; None if some expanded vertex raises"""
     seen = [start]
